@@ -12,7 +12,7 @@ RULE = ("random chains of 2-4 scripted actions with heavy ASYNC_PAUSED scripts (
         "mostly stop firing during the pause, 1-3 rulesets pausing independently plus ruleset-cgroup instances; the oracle requires "
         "that the tick after an ASYNC_PAUSED the first action run of that ruleset instance is the paused action with a field-for-field "
         "equal context (ruleset, group, uuid, deadline, target), that successors follow in order, that no chain starts while suspended, "
-        "that detectors run every tick, and that every new chain starts at action 0 with a uuid never seen before. "
+        "that detectors run every tick, and that every new chain starts at action 0 with a uuid never seen before; real kill plugins (dry) that defer on a prekill hook must poll it on every following tick until it is done, whatever post_action_delay they carry. "
         "non-trivial = >=1 resume on a tick where no group fired and >=1 chain start after a finished chain; distinct by config+script hash")
 ASSUMPTIONS = c02.ASSUMPTIONS
 OWN = {"C06"}
@@ -45,7 +45,69 @@ def cases(seed, tier):
         yield core.Case(cid, [scn], {"rulesets": nrs, "ticks": nticks})
 
 
+_cases_scripted = cases
+
+
+def cases(seed, tier):
+    yield from _cases_scripted(seed, tier)
+    # the same clause through the real kill plugins: a (dry) kill that waits for its prekill hook returns ASYNC_PAUSED and has to be
+    # run again on every following tick until the hook is done - whatever post_action_delay the plugin or the ruleset carries
+    from checks import c05
+    k = 0
+    for c in c05.real_cases(seed + 600, 500 if tier == "quick" else 4000):
+        if c.meta.get("hook"):
+            c.id = "C06r-%d-%d" % (seed, k)
+            c.scns[0]["id"] = c.id
+            k += 1
+            yield c
+
+
+def judge_real(case, results):
+    v = core.Verdict()
+    res, scn = results[0], case.scns[0]
+    cr = core.classify_crash(res) if res.crashed else core.exception_outcome(res)
+    if cr:
+        v.bad("crash:" + cr[0], cr[1], cr[2])
+        return v
+    _, tks = engine.split_ticks(res.events)
+    times = {e["i"]: e["t"] for e in res.events if e.get("ev") == "tick"}
+    pending = {}  # hook invocation -> (tick fired, time fired)
+    waits = polls = 0
+    for ti, evs in enumerate(tks):
+        polled = set()
+        for e in evs:
+            if e.get("ev") != "hook":
+                continue
+            if e["m"] == "fire":
+                pending[e["inv"]] = (ti, times.get(ti, 0))
+                polled.add(e["inv"])
+            elif e["m"] == "didFinish":
+                polled.add(e["inv"])
+                polls += 1
+                if e["ret"]:
+                    pending.pop(e["inv"], None)
+            elif e["m"] == "destroy":
+                pending.pop(e["inv"], None)
+        for inv, (t0, at) in list(pending.items()):
+            if inv in polled:
+                continue
+            if times.get(ti, 0) - at >= 59 * 10**9:
+                pending.pop(inv)  # (the 60 s prekill_hook_timeout is C07's business)
+                continue
+            waits += 1
+            v.bad("resume-same-action", "real-plugin", "%s (own post_action_delay %s, ruleset %s): the kill action deferred at tick %d waiting for its prekill hook (invocation %s) and was not run on tick %d" % (
+                case.meta["plugin"], case.meta["own"], case.meta["ruleset"], t0, inv, ti))
+            return v
+    v.count("real_plugin_hook_wait_cases")
+    v.count("real_plugin_hook_polls", polls)
+    v.nontrivial = polls > 0
+    v.sig = core.scn_hash(scn)
+    return v
+
+
 def judge(case, results):
+    if case.meta.get("real"):
+        return judge_real(case, results)
     scn = case.scns[0]
     live = None
     for r in scn["config"]["rulesets"]:
@@ -73,4 +135,7 @@ def judge(case, results):
     return v
 
 
-sample = c02.sample
+def sample(case, v):
+    if case.meta.get("real"):
+        return {"case": case.id, "real_plugin": case.meta, "observed": v.stats}
+    return c02.sample(case, v)
